@@ -31,6 +31,8 @@ pub struct DeletionQuery {
     pub nodes: Vec<NodeDelete>,
     pub node_log: Vec<NodeDeletionEntry>,
     pub updated_nodes: Vec<Node>,
+    //(room, entity, mdate) of the version replaced by each updated node: the daily log it leaves must be recomputed
+    pub replaced_versions: Vec<(Uid, String, i64)>,
     pub edges: Vec<EdgeDelete>,
     pub edge_log: Vec<EdgeDeletionEntry>,
 }
@@ -46,6 +48,7 @@ impl DeletionQuery {
             nodes: Vec::new(),
             node_log: Vec::new(),
             updated_nodes: Vec::new(),
+            replaced_versions: Vec::new(),
             edges: Vec::new(),
             edge_log: Vec::new(),
         };
@@ -89,6 +92,10 @@ impl DeletionQuery {
                         }
                     }
                     let mut node = *node;
+                    if let Some(room_id) = node.room_id {
+                        let replaced = (room_id, node._entity.clone(), node.mdate);
+                        deletion_query.replaced_versions.push(replaced);
+                    }
                     node.mdate = date;
                     deletion_query.updated_nodes.push(node);
                 }
@@ -122,6 +129,9 @@ impl DeletionQuery {
     }
 
     pub fn update_daily_logs(&self, daily_log: &mut DailyMutations) {
+        for (room_id, entity, mdate) in &self.replaced_versions {
+            daily_log.set_need_update(*room_id, entity, *mdate);
+        }
         for edg in &self.edge_log {
             daily_log.set_need_update(edg.room_id, &edg.src_entity, edg.deletion_date);
         }
